@@ -414,12 +414,16 @@ func (fr *Frame) enterLoop(li *loopInfo, pre *State, pc Term) *State {
 						continue
 					}
 					vc.havocHeap(st, h)
-					vc.assume(pc, vc.frameFormula(st.heaps[h], vc.heap(pre, h, vc.heapInfo[h].Sort), h, regs, pre.wm))
+					oldH := vc.heap(pre, h, vc.heapInfo[h].Sort)
+					vc.assume(pc, vc.frameFormula(st.heaps[h], oldH, h, regs, pre.wm))
+					if excl, ok := simpleExclusions(regs, h); ok && hasPrefix(vc.heapInfo[h].Sort, "(Array ") {
+						vc.recordFrame(st.heaps[h], oldH, pre.wm, pc, excl)
+					}
 				}
 			}
 		} else {
 			for _, h := range hn {
-				vc.havocHeap(st, h)
+				vc.havocHeapKeepOld(st, pre, h, pc)
 			}
 		}
 	}
@@ -694,3 +698,19 @@ func (vc *VC) frameFormula(cur, was Term, heap string, regs []region, wm Term) T
 }
 
 func hasPrefix(s, p string) bool { return len(s) >= len(p) && s[:len(p)] == p }
+
+// simpleExclusions lists the excluded references of a heap when every region
+// on it is a whole object (no element ranges, not the whole ghost map).
+func simpleExclusions(regs []region, heap string) ([]Term, bool) {
+	var excl []Term
+	for _, r := range regs {
+		if r.heap != heap {
+			continue
+		}
+		if r.global || r.ghostAll || (r.isElem && !r.whole) {
+			return nil, false
+		}
+		excl = append(excl, r.ref)
+	}
+	return excl, true
+}
